@@ -261,7 +261,7 @@ class TwinHistory(RecHistory):
             self.on("payout", a)
             self.best = a
             return
-        if k < 68:
+        if k < 64:
             # fork from a block up to maxreorg+3 behind the tip: above, at and below the final block
             depth = r.range(1, self.maxreorg + 3)
             p = self.chain_back(self.best, depth)
@@ -275,7 +275,7 @@ class TwinHistory(RecHistory):
                 self.on("set", a)
                 self.on("set", self.best)
             return
-        if k < 72:
+        if k < 73:
             # a block that repeats a payload of an ancestor far below the tip (possibly finalized / deallocated):
             # stateful duplicate -> BLOCK_FAILED_POP at connect on both twins (finalized payload index in F)
             a = bad_block(g, self, self.best, "dup")
